@@ -4,7 +4,8 @@
   The model (HapModel/PairState.lean) mirrors pyhap with the repair of design/fixes/C06.patch;
   `parse` stands for `uuid.UUID(bytes.decode("utf-8"))` and is universally quantified.
 -/
-import Proofs.PairState
+import Proofs.PairStateList
+import Proofs.PairStateHist
 namespace Hap.PairState
 
 /-- a verified session of a controller that is admin in `s` right now -/
@@ -25,50 +26,6 @@ theorem C06_guard (parse : Bytes → Option Uuid) (s : PState) (r : Req) (h : ¬
     · exfalso; apply h
       simp only [Bool.or_eq_true, Bool.not_eq_true', not_or, Bool.not_eq_false] at hg
       exact ⟨hg.1, cu, hcu, hg.2⟩
-
-theorem okResp_not_error (pc : Bool) : (okResp pc).isError = false := by
-  cases pc <;> decide
-
-/-- what one operation can do to aligned maps: nothing; register one controller (success
-    answer, save scheduled); or remove one paired controller (success answer, save scheduled) -/
-theorem step_cases (parse : Bytes → Option Uuid) (s : PState) (op : Op) (h : Aligned s) :
-    (∃ resp, step parse s op = (s, resp, false)) ∨
-    (∃ idb key perms s', addPairedClient parse s idb key perms = some s' ∧
-      step parse s op = (s', okResp, true)) ∨
-    (∃ u pc, ahas s.paired u = true ∧ (removePairedClient s u).2 = true ∧
-      step parse s op = ((removePairedClient s u).1, okResp pc, true)) := by
-  cases op with
-  | setup idb key =>
-    simp only [step]
-    cases e : addPairedClient parse s idb key [1] with
-    | none => left; exact ⟨_, rfl⟩
-    | some s' => right; left; exact ⟨idb, key, [1], s', e, rfl⟩
-  | req r =>
-    show (∃ resp, handlePairings parse s r = _) ∨ (∃ idb key perms s', _ ∧ handlePairings parse s r = _) ∨
-      (∃ u pc, _ ∧ _ ∧ handlePairings parse s r = _)
-    unfold handlePairings
-    split
-    · left; exact ⟨_, rfl⟩
-    · split
-      · left; exact ⟨_, rfl⟩
-      · split
-        · left; exact ⟨_, rfl⟩
-        · next objs _ =>
-          split
-          · left; exact ⟨_, rfl⟩
-          · left; exact ⟨_, rfl⟩
-          · split
-            · rcases handleAdd_cases parse s objs with e | ⟨idb, key, perms, s', e1, e2⟩
-              · left; exact ⟨_, e⟩
-              · right; left; exact ⟨idb, key, perms, s', e1, e2⟩
-            · split
-              · rcases handleRemove_cases parse s objs h with e | ⟨pc, e⟩ | ⟨u, pc, e1, e2, e3⟩
-                · left; exact ⟨_, e⟩
-                · left; exact ⟨_, e⟩
-                · right; right; exact ⟨u, pc, e1, e2, e3⟩
-              · split
-                · left; exact ⟨_, rfl⟩
-                · left; exact ⟨_, rfl⟩
 
 /-- Error atomicity: an operation answered with an error (HTTP status ≥ 400 or a TLV error
     item) leaves all three maps exactly as they were and schedules no save. Covers permission
@@ -120,6 +77,47 @@ theorem C06_last_admin (parse : Bytes → Option Uuid) (s : PState) (op : Op) (h
       · cases e1
   · rw [e]; exact removePairedClient_last_admin s v hok
 
+/-- a body that the TLV rules read as a list-pairings request -/
+def IsListReq (body : Bytes) : Prop :=
+  ∃ objs rest, Tlv.decode body [] = some objs ∧ aget objs tReq = some (5 :: rest)
+
+/-- List exactness over histories. Run any history (pair-setup completions and arbitrary
+    `POST /pairings` requests on arbitrary connections) from the empty state, and let `a` be the
+    pairing list an observer derives *from the answers alone* (`observe`: success answers to add /
+    remove and finished pair-setups; errors change nothing; removing the last admin empties it).
+    Then a list request on a verified admin session changes nothing and its answer, decoded with
+    the independent TLV8 list decoder, is exactly `a`: every current pairing, in registration
+    order, with the identifier bytes it was registered with, its key and its admin flag.
+    (`parse [] = none`: the empty string is not a UUID.) -/
+theorem C06_list_exact (parse : Bytes → Option Uuid) (hparse : parse [] = none) (ops : List Op)
+    (c : Conn) (body : Bytes) (hbody : IsListReq body)
+    (hc : c.adminNow (run parse PState.empty ops)) :
+    ∃ items, handlePairings parse (run parse PState.empty ops) ⟨c, body⟩
+        = (run parse PState.empty ops, .tlv items false, false) ∧
+      decodePairings (Tlv.encode items) = some (runBoth parse PState.empty [] ops).2.listing := by
+  have hrel := rel_run parse ops PState.empty [] (rel_empty parse)
+  rw [runBoth_fst] at hrel
+  obtain ⟨henc, u, hcu, hadm⟩ := hc
+  obtain ⟨objs, rest, hd, hrt⟩ := hbody
+  refine ⟨listItems (run parse PState.empty ops), ?_, ?_⟩
+  · simp [handlePairings, hcu, henc, hadm, hd, hrt]
+  · rw [decodePairings_list, rel_listing parse hparse _ _ hrel]
+
+/-- The same at the level of one state: whatever the three maps hold, the list answer decodes to
+    exactly the entries of `paired_clients`, in order, with the recorded identifier bytes, key and
+    admin flag of each. -/
+theorem C06_list_exact_state (s : PState) :
+    decodePairings (Tlv.encode (listItems s)) =
+      some (s.paired.map fun e => (regBytes s e.1, e.2, isAdmin s e.1)) :=
+  decodePairings_list s
+
+/-- The maps always represent the observer's list: after every history the set of pairings held
+    by the accessory (keys, permissions, recorded identifier bytes) is the one the answers imply. -/
+theorem C06_maps_follow_answers (parse : Bytes → Option Uuid) (ops : List Op) :
+    Rel parse (run parse PState.empty ops) (runBoth parse PState.empty [] ops).2 := by
+  have hrel := rel_run parse ops PState.empty [] (rel_empty parse)
+  rwa [runBoth_fst] at hrel
+
 /-! ### the code as shipped (before design/fixes/C06.patch) -/
 
 private def demoParse (b : Bytes) : Option Uuid :=
@@ -146,6 +144,13 @@ example : (Conn.mk true (some ⟨7, by decide⟩)).adminNow demoState := ⟨rfl,
 /-- the repaired model refuses the same request and changes nothing -/
 example : handleAdd demoParse demoState [(tReq, [3]), (tUser, [66]), (tPub, [9, 9]), (tPerm, [1, 0])]
     = (demoState, err500, false) := by decide
+example : IsListReq (Tlv.encode [(tReq, [5])]) := ⟨[(tReq, [5])], [], by decide +kernel, by decide⟩
+/-- a history with a non-empty observer list and an admin session to ask from -/
+example :
+    (runBoth demoParse PState.empty [] [.setup [65] [1, 2, 3]]).2.listing = [([65], [1, 2, 3], true)] ∧
+    (Conn.mk true (some ⟨7, by decide⟩)).adminNow (run demoParse PState.empty [.setup [65] [1, 2, 3]]) :=
+  ⟨by decide, rfl, _, rfl, by decide⟩
+example : demoParse [] = none := by decide
 /-- an admin adds a user, then removing the admin (the last one) clears everything -/
 example :
     let add : Op := .req ⟨⟨true, some ⟨7, by decide⟩⟩, Tlv.encode [(tReq, [3]), (tUser, [66]), (tPub, [9]), (tPerm, [0])]⟩
